@@ -127,7 +127,8 @@ func init() {
 			{ID: "R07.1", Title: "no error is dropped in the built-ins (tested, returned or handed on, on every path)", Floor: 600, Run: ruleR071},
 			{ID: "R07.2", Title: "stores into fields of a value receiver are not lost (error sinks are shared)", Floor: 0, Run: ruleR072},
 			{ID: "R07.3", Title: "declared arity covers every stack slot the implementation reads", Floor: 121, Run: ruleR073},
-			{ID: "R07.4", Title: "string positions: a rune count is never compared with or added to a byte count", Floor: 4, Run: ruleR074},
+			{ID: "R07.4", Title: "string positions: a rune count is never equated with, added to or subtracted from a byte count", Floor: 4, Run: ruleR074},
+			{ID: "R07.5", Title: "a rune that is written into a result is decoded from a string known to be non empty (must-analysis on the CFG)", Floor: 1, Run: ruleR075},
 			{ID: "R13.1", Title: "key-domain agreement of the map storages (see C13)", Floor: 9, Run: ruleR131},
 			{ID: "R09.1", Title: "list backing slices are never written in place (see C09)", Floor: 36, Run: ruleR091},
 		},
